@@ -334,6 +334,8 @@ bool Xml::Private::parse(const char* data, Element& element)
     return false;
   if(token.type != Token::startTagBeginType)
     return syntaxError(token.pos, "Expected '<'"), false;
+  element.attributes.clear();
+  element.content.clear();
   return parseElement(element);
 }
 
